@@ -34,7 +34,10 @@ def main():
                                    "columns": d["columns"]}, h)
                     paths.append(p)
                 try:
-                    SF.all_schemes(extra_filenames=paths)
+                    # the file names as the caller happens to hold them: a list, a tuple, or a one-shot iterable
+                    form = o.get("paths_as", "list")
+                    arg = paths if form == "list" else tuple(paths) if form == "tuple" else (q for q in paths) if form == "generator" else map(str, paths)
+                    SF.all_schemes(extra_filenames=arg)
                     steps.append({"exc": None})
                 except Exception as e:  # noqa
                     steps.append({"exc": exc_name(e)})
